@@ -26,6 +26,7 @@ ALLOWED_AXIOMS = {
 TRUSTED_BASE = [
     "Coq 8.16.1 kernel (coqc, full .vo builds; vm_compute in comparators; no native_compute)",
     "standard-library axioms only, as printed by Print Assumptions: " + ", ".join(sorted(ALLOWED_AXIOMS)),
+    "Coq's primitive Uint63 integers with the standard library's specification axioms (Numbers.Cyclic.Int63.*): used only by corr/Decode.v to read float mantissas in generated case files; they appear in coqchk's cone of files importing it, never under a theorem",
     "translator translate/pyexpr.py + gen_r.py (Python ast -> Gallina), validated by round trip against the implementation",
     "skeleton/leaf extraction translate/skeleton.py and the committed skeleton files",
     "correspondence harness (harness/*.py) and comparator tolerances (1e-9 relative; exact on discrete outputs where float arithmetic is exact)",
@@ -189,9 +190,14 @@ def coqchk(ctx, pid):
     axs = [a.strip() for a in m.group(1).split() if a.strip() and a.strip() != "<none>"]
     axs = [a[4:] if a.startswith("Coq.") else a for a in axs]
     short = {a.split(".", 1)[1] if a.split(".")[0] in ("Logic", "Reals") else a for a in axs}
+    # Coq's primitive 63-bit integers and the specification axioms the standard library declares for them
+    # (Numbers.Cyclic.Int63.*) appear in the cone of every file that imports corr/Decode.v (case-file decoding);
+    # they are the standard library's, are named in the trusted base, and never occur under Print Assumptions of a theorem
+    prim = sorted(a for a in short if a.startswith("Numbers.Cyclic.Int63."))
+    short = {a for a in short if a not in prim}
     bad = [a for a in short if a not in ALLOWED_AXIOMS]
     clean = all("<none>" in m.group(i) for i in (2, 3, 4))
-    ctx.assumptions["coqchk -o (whole dependency cone)"] = sorted(short)
+    ctx.assumptions["coqchk -o (whole dependency cone)"] = sorted(short) + (["Numbers.Cyclic.Int63.* (%d stdlib primitives/spec axioms via corr/Decode.v)" % len(prim)] if prim else [])
     return ctx.ob("coqchk re-check of the property file and its dependency cone (axioms within the allowed list; no type-in-type, unsafe fixpoints or assumed positivity)",
                   "theorem", not bad and clean, out[-1200:])
 
